@@ -738,6 +738,9 @@ class Evaluator(CallMixin, StmtMixin):
                         if mk0 not in run.elem_memo:
                             run.elem_memo[mk0] = SObj(f"{_nm(coll)}[meta]", elem_kinds & META_KINDS, origin=_origin(coll))
                         return run.elem_memo[mk0]
+                    if self.count_class(coll, vis) == 0:
+                        from .interp import Infeasible
+                        raise Infeasible()      # no visible element: the first one cannot be visible
                     return self.view_elem(coll, vis, 0, node)
                 return self.view_elem(coll, vis, 0, node)
         mk = ("elem", _uid(coll), tuple(sorted(kinds)), _K(idx) if isinstance(idx, Sym) else idx)
